@@ -8,6 +8,7 @@ package main
 import (
 	"bufio"
 	"bytes"
+	"crypto/tls"
 	"encoding/base64"
 	"encoding/json"
 	"fmt"
@@ -56,6 +57,7 @@ type smtpBehaviour struct {
 	GoHooks     bool                   `json:"gohooks"` // Go listeners ahead of / behind the Lua host (first-answer rule, C17)
 	NoVisit     bool                   `json:"novisit"` // snapshot only the behaviour's own mailboxes (parallel sessions)
 	Group       string                 `json:"group"`
+	TLS         bool                   `json:"tls"`          // STARTTLS is configured (TLSEnabled with a throw-away certificate)
 	FailMailbox string                 `json:"fail_mailbox"` // fault injection: the store refuses every message for this mailbox   // behaviours with the same non-empty group share one server and run concurrently
 }
 
@@ -285,6 +287,19 @@ type smtpEnv struct {
 }
 
 func setupSMTP(b smtpBehaviour, scratch string) (*smtpEnv, error) {
+	if b.TLS {
+		crt, key, err := lcSelfSigned(scratch, b.ID)
+		if err != nil {
+			return nil, err
+		}
+		env := map[string]string{"INBUCKET_SMTP_TLSENABLED": "true", "INBUCKET_SMTP_TLSCERT": crt, "INBUCKET_SMTP_TLSPRIVKEY": key}
+		for k, v := range b.Env {
+			env[k] = v
+		}
+		b.Env = env
+		defer os.Remove(crt)
+		defer os.Remove(key)
+	}
 	setEnv(b.Env)
 	root, err := config.Process()
 	if err != nil {
@@ -492,6 +507,30 @@ func runSMTPSessionEmit(emit func(tr.Ev), flush func(), b smtpBehaviour, e *smtp
 			lastCode = rp.Code
 			if rp.Cls == "closed" {
 				closed = true
+			}
+			switch ev["c"] {
+			case "helo":
+				// does the greeting offer STARTTLS?
+				adv := false
+				for _, l := range rp.Raw {
+					if strings.Contains(strings.ToUpper(l), "STARTTLS") {
+						adv = true
+					}
+				}
+				ev["adv"] = adv
+			case "starttls":
+				if rp.Code == 220 {
+					// the client negotiates TLS on the same connection; the rest of the dialogue is encrypted
+					tc := tls.Client(client, &tls.Config{InsecureSkipVerify: true})
+					_ = client.SetDeadline(time.Now().Add(timeout))
+					err := tc.Handshake()
+					ev["upgraded"] = err == nil
+					if err == nil {
+						client, br = tc, bufio.NewReader(tc)
+					} else {
+						ev["tlserr"] = err.Error()
+					}
+				}
 			}
 		}
 		snap(ev)
